@@ -1,1 +1,4 @@
 //! Writers for the file formats (independent of calamine's parsers).
+pub mod xml;
+pub mod xlsx;
+pub mod zipw;
